@@ -936,4 +936,14 @@ def wasmSignerOk (contract : Addr) (m : Msg) : Bool := m.signers.all (· == cont
 /-- the router's gate plus wasmd's condition (current tree) -/
 def wasmDispatchOk (contract : Addr) (m : Msg) : Bool := m.creator == contract && wasmSignerOk contract m
 
+/-- A contract may also dispatch an `authz.MsgExec`.  wasmd demands that the grantee is the contract; authz then runs every
+    inner message whose declared signer is the grantee without reading any authorisation.  Since /repo's second repair of the
+    router (`verifyCreatorOf`) the gate descends into the wrapper: EVERY message in scope must name the contract as creator.
+    `wasmDispatchTopOld` is the gate before that repair: only a dispatched message that itself carries metadata was looked at. -/
+def wasmDispatchTop (contract : Addr) (t : Top) : Bool := t.scope.all (fun m => m.creator == contract)
+
+def wasmDispatchTopOld (contract : Addr) : Top → Bool
+  | .plain m => m.creator == contract
+  | .exec _ _ => true
+
 end Paloma.Auth
